@@ -21,32 +21,6 @@ theorem canHandle_helloReply (i n : Bytes) : canHandle (helloReply i n) = true :
   simp only [Bool.and_eq_true, List.isPrefixOf_iff_prefix, List.isSuffixOf_iff_suffix]
   exact ⟨by rw [List.append_assoc]; exact List.prefix_append _ _, List.suffix_append _ _⟩
 
-theorem splitBar_ne_nil (b : Bytes) : splitBar b ≠ [] := by
-  induction b with
-  | nil => simp [splitBar]
-  | cons x xs ih =>
-    unfold splitBar
-    by_cases h : x = bar
-    · simp [h]
-    · simp only [h, if_false]
-      cases hs : splitBar xs <;> simp
-
-theorem splitBar_noBar (n : Bytes) (h : NoBar n) : splitBar n = [n] := by
-  induction n with
-  | nil => rfl
-  | cons x xs ih =>
-    have hx : x ≠ bar := by intro e; exact h (by simp [e])
-    have hxs : NoBar xs := by intro e; exact h (by simp [e])
-    simp [splitBar, hx, ih hxs]
-
-theorem splitBar_append (i rest : Bytes) (h : NoBar i) : splitBar (i ++ bar :: rest) = i :: splitBar rest := by
-  induction i with
-  | nil => simp [splitBar]
-  | cons x xs ih =>
-    have hx : x ≠ bar := by intro e; exact h (by simp [e])
-    have hxs : NoBar xs := by intro e; exact h (by simp [e])
-    simp [splitBar, hx, ih hxs]
-
 theorem prefix3_append (p : Bytes) (hp : p.length = 3) (hb : bar ∉ p) (i n : Bytes) :
     p.isPrefixOf (i ++ bar :: n) = p.isPrefixOf i := by
   match p, hp with
@@ -693,10 +667,8 @@ theorem lockstep_noSuspend (slots : List Slot) : noSuspend (lockstep slots) := b
 
 /-! ### nothing is lost when every datagram is a spa reply (any name) -/
 
-/-- a spa reply (since the D2 fix `handle` parses every one of them) -/
-def GoodReply (d : Datagram) : Prop := IsSpaReply d
-
-theorem goodReply_parse (d : Datagram) (h : GoodReply d) :
+/-- `handle` (since the D2 fix) parses every spa reply, whatever the name, to what the reply means -/
+theorem spaReply_parse (d : Datagram) (h : IsSpaReply d) :
     ∃ i n, codeParse d.payload = .ok (i, n) ∧ specDecode d = ⟨i, n, d.addr⟩ ∧ canHandle d.payload = true := by
   obtain ⟨i, n, hi, hp⟩ := h
   refine ⟨i, n, by rw [hp]; exact codeParse_reply i n hi, ?_, by rw [hp]; exact canHandle_helloReply i n⟩
@@ -705,18 +677,18 @@ theorem goodReply_parse (d : Datagram) (h : GoodReply d) :
   exact this
 
 structure GInv (s : DState) : Prop where
-  good : ∀ d ∈ s.arrived, GoodReply d
+  good : ∀ d ∈ s.arrived, IsSpaReply d
   decoded : s.handled = s.popped.map specDecode
   alive : ∀ e, s.consumer ≠ .dead e
 
 theorem ginv_step (s : DState) (hi : DInv c f s) (hg : GInv s) (i : Input)
-    (hgood : ∀ d, i = .datagram d → GoodReply d) : GInv (step c f s i) := by
+    (hgood : ∀ d, i = .datagram d → IsSpaReply d) : GInv (step c f s i) := by
   cases i with
   | datagram d =>
     simp only [step, onDatagram]
     split
     · exact hg
-    · have hgd : ∀ x ∈ s.arrived ++ [d], GoodReply x := by
+    · have hgd : ∀ x ∈ s.arrived ++ [d], IsSpaReply x := by
         intro x hx
         rcases List.mem_append.mp hx with hx | hx
         · exact hg.good x hx
@@ -729,10 +701,10 @@ theorem ginv_step (s : DState) (hi : DInv c f s) (hg : GInv s) (i : Input)
     rcases onConsume_cases f s b with ⟨h, _⟩ | ⟨d, rest, e, _, hq, _, hp, h⟩ | ⟨d, rest, i, n, hc, hq, _, hp, h⟩
     · rw [h]; exact hg
     · have hd : d ∈ s.arrived := by rw [hi.fifo, hq]; simp
-      obtain ⟨i, n, h1, _⟩ := goodReply_parse d (hg.good d hd)
+      obtain ⟨i, n, h1, _⟩ := spaReply_parse d (hg.good d hd)
       rw [h1] at hp; cases hp
     · have hd : d ∈ s.arrived := by rw [hi.fifo, hq]; simp
-      obtain ⟨i', n', h1, h2, _⟩ := goodReply_parse d (hg.good d hd)
+      obtain ⟨i', n', h1, h2, _⟩ := spaReply_parse d (hg.good d hd)
       rw [h1] at hp
       have hin : i' = i ∧ n' = n := by simpa using hp
       obtain ⟨rfl, rfl⟩ := hin
@@ -760,7 +732,7 @@ theorem ginv_step (s : DState) (hi : DInv c f s) (hg : GInv s) (i : Input)
       | cancelled => simp
     · exact hg
 
-theorem ginv_run (is : List Input) (hgood : ∀ d, Input.datagram d ∈ is → GoodReply d) :
+theorem ginv_run (is : List Input) (hgood : ∀ d, Input.datagram d ∈ is → IsSpaReply d) :
     ∀ s, DInv c f s → GInv s → GInv (run c f s is) := by
   induction is with
   | nil => intro s _ h; exact h
